@@ -18,8 +18,9 @@ import paramgen as pg
 import paramrun as pr
 
 RULE = ('distinct generated constructor calls (root task of 10 types incl. same-named types of two modules and the '
-        'prefix pair Exp/Experiment) whose parameter tree has depth >= 2 and contains a nested task pair, an enum member '
-        'or a list/dict to normalise')
+        'prefix pair Exp/Experiment; enum members of 15 classes incl. same-named classes of two modules and classes nested in '
+        'holder classes - dotted qualified names, same __name__ in two holders) whose parameter tree has depth >= 2 and '
+        'contains a nested task pair, an enum member or a list/dict to normalise')
 
 
 def witness_pairs():
@@ -343,6 +344,13 @@ def run_tree(spec):
         if real['status'] == 'ok':
             for a in single_tree_alarms(spec, real, LocalStorage(d)):
                 viol.append(dict(what=a, replay=dict(kind='tree', spec=spec)))
+            # reconstruction from cache metadata, in a store of its own
+            try:
+                rv = []
+                reconstruction_keys([spec], [real], rv, dis, collections.Counter())
+                viol += [dict(v, replay=dict(kind='tree', spec=spec)) for v in rv]
+            except Exception as e:
+                viol.append(dict(what=f'saving / cached_tasks over generated tasks raised {type(e).__name__}: {e}'[:200], replay=dict(kind='tree', spec=spec)))
     finally:
         shutil.rmtree(d, ignore_errors=True)
     return viol, dis
@@ -480,7 +488,15 @@ def run(ctx):
             try:
                 reconstruction_keys([specs[i] for i in sub], [reals[i] for i in sub], viol, dis, dist)
             except Exception as e:
-                viol.append(dict(what=f'saving / cached_tasks over generated tasks raised {type(e).__name__}: {e}'[:200], replay=dict(kind='tree', spec=None)))
+                # which constructor call is it? (each one alone in a store of its own)
+                culprit = None
+                for i in sub:
+                    try:
+                        reconstruction_keys([specs[i]], [reals[i]], [], [], collections.Counter())
+                    except Exception:
+                        culprit = specs[i]
+                        break
+                viol.append(dict(what=f'saving / cached_tasks over generated tasks raised {type(e).__name__}: {e}'[:200], replay=dict(kind='tree', spec=culprit)))
             unknown = [v for v in viol if not v.get('known_match')]
             if (not ctx['proof_ok'] or dis) and not unknown and not enlarged:
                 enlarged = True
